@@ -122,9 +122,14 @@ def _work(spec):
             H = F.build(spec)
             n, v = check(H, spec)
             F.detour(H)
-            n2, v2 = check(H, spec)
-            n += n2
-            v = list(v) + [(m, "[same object re-evaluated after remove+re-add of its first node and edge] " + msg) for m, msg in v2]
+            F.morph(H)  # a different network with the same node and edge counts
+            ms = [frozenset(m) for m in H.edges.members()]
+            n2, v2 = check(H, spec) if len(ms) == len(set(ms)) else (0, [])  # the measures are defined without repeated edges
+            F.grow(H)  # one more edge with a fresh ID
+            ms = [frozenset(m) for m in H.edges.members()]
+            n3, v3 = check(H, spec) if len(ms) == len(set(ms)) else (0, [])
+            n += n2 + n3
+            v = list(v) + [(m, "[same object re-evaluated after in-place edits] " + msg) for m, msg in list(v2) + list(v3)]
             # the closure of this hypergraph (all non-empty subsets of every edge) as a downward-closed input
             cl = set()
             for _, m in spec["edges"]:
